@@ -415,7 +415,11 @@ class HttpParser(abc.ABC, Generic[_MsgT]):
                             if not DIGITS.fullmatch(length_hdr):
                                 raise InvalidHeader(CONTENT_LENGTH)
 
-                            return int(length_hdr)
+                            try:
+                                return int(length_hdr)
+                            except ValueError:
+                                # more digits than int() converts
+                                raise InvalidHeader(CONTENT_LENGTH) from None
 
                         length = get_content_length()
                         # do not support old websocket spec
